@@ -119,6 +119,14 @@ func c26GethTx(t *refevm.Tx) *types.Transaction {
 		return types.NewTx(&types.AccessListTx{ChainID: big.NewInt(1), Nonce: t.Nonce, GasPrice: t.GasPrice, Gas: t.Gas, To: t.To, Value: t.Value, Data: t.Data, AccessList: al})
 	case refevm.TxDynamic:
 		return types.NewTx(&types.DynamicFeeTx{ChainID: big.NewInt(1), Nonce: t.Nonce, GasTipCap: t.MaxTip, GasFeeCap: t.MaxFee, Gas: t.Gas, To: t.To, Value: t.Value, Data: t.Data, AccessList: al})
+	case refevm.TxSetCode:
+		to := common.Address{}
+		if t.To != nil {
+			to = *t.To
+		}
+		auths, _ := t.Aux.([]types.SetCodeAuthorization)
+		return types.NewTx(&types.SetCodeTx{ChainID: uint256.NewInt(1), Nonce: t.Nonce, GasTipCap: uint256.MustFromBig(t.MaxTip), GasFeeCap: uint256.MustFromBig(t.MaxFee),
+			Gas: t.Gas, To: to, Value: uint256.MustFromBig(t.Value), Data: t.Data, AccessList: al, AuthList: auths})
 	case refevm.TxBlob:
 		to := common.Address{}
 		if t.To != nil {
@@ -166,6 +174,10 @@ func c26Reject(err error) string {
 		return refevm.RejBlobCreate
 	case errors.Is(err, ErrTooManyBlobs):
 		return refevm.RejBlobCount
+	case errors.Is(err, ErrSetCodeTxCreate):
+		return refevm.RejSetCodeCreate
+	case errors.Is(err, ErrEmptyAuthList):
+		return refevm.RejSetCodeEmpty
 	}
 	if err != nil && bytes.Contains([]byte(err.Error()), []byte("invalid hash version")) {
 		return refevm.RejBlobVersion
